@@ -245,13 +245,29 @@ func includeHeader(hdr string, signedHdrs []string) bool {
 	return false
 }
 
+// IsBigDataAction reports whether the request is a streaming upload
+// (PutObject / UploadPart) whose signature check is deferred to the end of
+// the body stream. Only requests whose handler reads the wrapped body reader
+// to EOF may be deferred: everything else must be verified up front.
 func IsBigDataAction(ctx *fiber.Ctx) bool {
-	if ctx.Method() == http.MethodPut && len(strings.Split(ctx.Path(), "/")) >= 3 {
-		if !ctx.Request().URI().QueryArgs().Has("tagging") && ctx.Get("X-Amz-Copy-Source") == "" && !ctx.Request().URI().QueryArgs().Has("acl") {
-			return true
+	if ctx.Method() != http.MethodPut {
+		return false
+	}
+	// "/bucket", "/bucket/", "/bucket//" are bucket level requests
+	parts := strings.SplitN(strings.TrimPrefix(ctx.Path(), "/"), "/", 2)
+	if len(parts) < 2 || strings.Trim(parts[1], "/") == "" {
+		return false
+	}
+	if ctx.Get("X-Amz-Copy-Source") != "" {
+		return false
+	}
+	args := ctx.Request().URI().QueryArgs()
+	for _, sub := range []string{"tagging", "acl", "retention", "legal-hold"} {
+		if args.Has(sub) {
+			return false
 		}
 	}
-	return false
+	return true
 }
 
 // expiration time window
